@@ -1108,7 +1108,7 @@ def irf_parameter_enumeration(ck, ne):
             raise core.HarnessError(f"model refused {line}")
         if tree[0] == "err":
             ck.count("irfpar:error:" + tree[1].split(":")[0])
-            want = {"irfLength": "ModelError", "noShift": "ModelError", "noDispersionCenter": "ModelError", "noIndex": "TypeError"}[tree[1].split(":")[0]]
+            want = {"irfLength": "ModelError", "scaleLength": "ModelError", "noShift": "ModelError", "noDispersionCenter": "ModelError", "noIndex": "TypeError"}[tree[1].split(":")[0]]
             if real[0] != "err" or real[1] != want:
                 ck.disagree("irf-parameter:error", f"model: {tree[1]}, implementation: {real[:2]}", {"irf_parameter": meta})
             continue
